@@ -208,7 +208,9 @@ pub fn gen_desc_case_with(rng: &mut Rng, world: &World, cfg: &CaseCfg, names: &d
         }
         DescKind::Tr => {
             let internal = KeyRef { id: kid, form: KeyForm::XOnly };
-            let n_leaves = if rng.chance(1, 5) { 0 } else { 1 + rng.below(cfg.max_leaves) };
+            // one tree in twelve is a deep chain (8-11 small leaves): control blocks beyond 252 bytes
+            let deep_chain = rng.chance(1, 12);
+            let n_leaves = if deep_chain { 8 + rng.below(4) } else if rng.chance(1, 5) { 0 } else { 1 + rng.below(cfg.max_leaves) };
             let mut frags = vec![];
             let mut gc = GenCfg::new(Cx::Tap, cfg.max_nodes);
             gc.chaos_pct = cfg.chaos_pct;
@@ -218,7 +220,7 @@ pub fn gen_desc_case_with(rng: &mut Rng, world: &World, cfg: &CaseCfg, names: &d
                 let budget_total = 1 + rng.below(cfg.max_nodes);
                 let mut g = Gen::new(rng, gc);
                 for _ in 0..n_leaves {
-                    let b = (budget_total / n_leaves.max(1)).max(1);
+                    let b = if deep_chain { 1 + g.rng.below(2) } else { (budget_total / n_leaves.max(1)).max(1) };
                     if g.rng.chance(1, 8) {
                         frags.push(crate::frag::ladder(g.rng, Cx::Tap));
                     } else {
@@ -256,7 +258,17 @@ pub fn gen_desc_case_with(rng: &mut Rng, world: &World, cfg: &CaseCfg, names: &d
                 format!("tr({})", names.key(&internal))
             } else {
                 let ls: Vec<String> = frags.iter().map(|f| f.to_string_with(names)).collect();
-                format!("tr({},{})", names.key(&internal), tap_tree_string(rng, &ls))
+                let tree = if deep_chain {
+                    let left = rng.coin();
+                    let mut t = ls[ls.len() - 1].clone();
+                    for l in ls[..ls.len() - 1].iter().rev() {
+                        t = if left { format!("{{{},{}}}", t, l) } else { format!("{{{},{}}}", l, t) };
+                    }
+                    t
+                } else {
+                    tap_tree_string(rng, &ls)
+                };
+                format!("tr({},{})", names.key(&internal), tree)
             };
             DescCase { kind, desc, frags, internal: Some(internal), cx: Some(Cx::Tap) }
         }
